@@ -22,6 +22,7 @@ struct GramCfg {
   std::vector<int> alloc_modes{0};
   std::vector<int> ovs{0};
   bool fresh = false;            // fresh object per parse
+  bool digest = false;           // per-grammar digest of all observations (C16)
   int batch = 16;
   int timeout = 20;
   // single-case filters (replay)
@@ -451,6 +452,16 @@ struct GramEngine {
             }
           }
         }
+        if (cfg.digest) {
+          std::ostringstream os;
+          os << addr << " rc=" << o.rc << " amb=" << o.amb << " root=" << (o.root ? 1 : 0) << " msg=" << (o.rc ? vy_error_message(y) : "");
+          for (auto &e : o.errs) os << " err(" << e.err << "@" << e.err_a << "," << e.ign << "@" << e.ign_a << "," << e.rec << "@" << e.rec_a << ")";
+          // recovered parses: TERM attributes are D20's business (wrong / uninitialised token index), the digest ignores them
+          if (have_den) { for (auto &t : d.trees) os << " " << (o.errs.empty() ? t : strip_idx(t)); for (auto &x : d.shape) os << " shape:" << x; }
+          os << " allocs=" << g_trk.n_alloc << " frees=" << g_trk.n_free;
+          unsigned long h = 1469598103934665603ULL; for (char c : os.str()) h = (h ^ (unsigned char) c) * 1099511628211ULL;
+          rep.counters["dg:" + std::to_string(cid.gi)] += (long) (h >> 36);
+        }
         // ---- C13 (parse-level)
         if ((cfg.props & P13) && o.rc == 0) check_c13(g, y, o, d, have_den, am, w, f, V, rep);
         // ---- C09 differential
@@ -612,7 +623,8 @@ struct GramEngine {
               }
               if (!single) {  // only the sequence of parses on one object fails
                 ChildRes cr2; Report dummy;
-                if (try_run(c2, gi, dummy, &cr2)) machinery_error("input batch failed once and passed on replay: gi=" + std::to_string(gi));
+                ChildRes crx; Report d0; try_run(c2, gi, d0, &crx);
+                if (try_run(c2, gi, dummy, &cr2)) { cr2 = crx; cr2.err_tail = "(failed, then passed on replay - memory corruption with allocator-dependent effect) " + cr2.err_tail; total.add("crashes_not_reproduced_on_replay"); }
                 found = true;
                 if (reported++ < 10) report_crash(gi, c2, cr2, total, true);
               }
@@ -624,7 +636,7 @@ struct GramEngine {
         }
         if (!found && reported < 10) {
           ChildRes cr2; Report dummy;
-          if (try_run(c1, gi, dummy, &cr2)) machinery_error("grammar batch failed once and passed on replay: gi=" + std::to_string(gi));
+          if (try_run(c1, gi, dummy, &cr2)) { cr2.err_tail = "(failed, then passed on replay - memory corruption with allocator-dependent effect) " + cr2.err_tail; cr2.sig = cr2.sig ? cr2.sig : 6; total.add("crashes_not_reproduced_on_replay"); }
           reported++;
           report_crash(gi, c1, cr2, total, true);
         }
@@ -764,6 +776,7 @@ int eng_gram_main(int argc, char **argv) {
   if (a.has("ams")) { c.alloc_modes.clear(); for (auto &s : split(a.get("ams"), ',')) c.alloc_modes.push_back(atoi(s.c_str())); }
   if (a.has("ovs")) { c.ovs.clear(); for (auto &s : split(a.get("ovs"), ',')) c.ovs.push_back(atoi(s.c_str())); }
   c.fresh = a.has("fresh");
+  c.digest = a.has("digest");
   c.batch = (int) a.geti("batch", 16);
   c.timeout = (int) a.geti("timeout", 20);
   c.verbose = a.has("verbose");
